@@ -225,6 +225,23 @@ def run_replay_check(pid: str, tier: str, seed: int) -> int:
             known[f["id"]] = known.get(f["id"], 0) + 1
         else:
             unknown.append((v, None))
+    # ---- 4b'. continuous-parameter programs (requests outside the exact lattice): recorded, and judged by TLC on the
+    #           clauses of this property (C10: CutoffAdequate, ResizeReturn; C06: ChannelMatchesModel)
+    drv_lines = 0
+    if plan.get("drivers"):
+        nprog, nsteps, profile = plan["drivers"][tier]
+        dfiles = tracecheck.run_drivers(seed, nprog, nsteps, procs=12, outdir=os.path.join(trace_dir, "drv"), profile=profile)
+        dfail, dstats = tracecheck.validate(dfiles)
+        drv_lines = dstats["lines"]
+        gen_desc.append(f"{nprog} continuous-parameter programs x {nsteps} steps (profile {profile}): {drv_lines} recorded calls judged by TLC")
+        for v in dfail:
+            if pid not in v["props"]:
+                continue
+            f = findings.classify(pid, v, kf)
+            if f is not None:
+                known[f["id"]] = known.get(f["id"], 0) + 1
+            else:
+                unknown.append((v, None))
     # ---- 4c. (C08) contraction twins on continuous-parameter programs, judged by CTwin.tla
     ctw_pairs = 0
     if plan.get("ctwins"):
